@@ -860,11 +860,20 @@ def logit_dynamics(ctx, thorough):
             ctx.fail("logit_range", "action outside the action set", inp, o1.tolist()[:5], None)
 
 
+FLOAT_AXIOMS = ("FloatAxioms.Prim2SF_valid", "FloatAxioms.SF2Prim_Prim2SF", "FloatAxioms.Prim2SF_SF2Prim", "FloatAxioms.ltb_spec",
+                "FloatAxioms.leb_spec", "FloatAxioms.add_spec", "FloatAxioms.mul_spec", "FloatAxioms.eqb_spec", "FloatAxioms.compare_spec",
+                "ClassicalDedekindReals.sig_forall_dec", "ClassicalDedekindReals.sig_not_dec", "Classical_Prop.classic",
+                "FunctionalExtensionality.functional_extensionality_dep")
+
+
 def run(ctx):
     thorough = ctx.tier == "thorough"
-    ctx.proofs()
+    # PropsFloat.v: binary64 instances through Flocq; they rest on the standard library's specification of the primitive
+    # float operations (FloatAxioms) and on the classical reals, each axiom named in the evidence
+    ctx.proofs(["C20/Props.v", "C20/PropsFloat.v"], extra_axioms=FLOAT_AXIOMS)
+    ctx.assumptions += ["axioms used only by *PropsFloat.v: " + ", ".join(FLOAT_AXIOMS)]
     ctx.trusted += ["float fact used by C20_logit_range: for the cumulative weights c = cdf[-1] of the game and 0 <= u < 1, not (c <= u*c) "
-                    "(Section hypothesis; proved for Q, spot-checked for binary64)",
+                    "(hypothesis of the generic theorem; proved for Q in Props.v and for binary64 in PropsFloat.v through Flocq: FloatAxioms.*, classical reals)",
                     "NumPy searchsorted(side='right') modelled by its specification on sorted arrays; exp() values are read from the object"]
     import time
     t0 = time.time()
